@@ -17,6 +17,7 @@ import (
 	"fmt"
 	"math/rand"
 	"os"
+	"runtime"
 	"sync"
 	"sync/atomic"
 	"time"
@@ -45,6 +46,10 @@ type LifeScript struct {
 	Calls []LifeCall `json:"calls"`
 	// random delay (0..Jitter microseconds) injected at every hook, to shake the interleavings
 	Jitter int `json:"jitter"`
+	// number of processors the Go scheduler may use for this script (0 = all). With ONE processor a
+	// freshly spawned goroutine (a timer) gets to run only when the spawning goroutine blocks or ends:
+	// the schedules "the timer goroutine starts after its search has ended" become the common case
+	Procs int `json:"procs"`
 }
 
 type LifeEvent struct {
@@ -175,6 +180,9 @@ func lifeRun(args []string) error {
 }
 
 func runLifeScript(sc *LifeScript, seed int64, watchdog time.Duration) *LifeResult {
+	if sc.Procs > 0 {
+		defer runtime.GOMAXPROCS(runtime.GOMAXPROCS(sc.Procs))
+	}
 	rec := &lifeRec{t0: time.Now(), jitter: sc.Jitter, rng: rand.New(rand.NewSource(seed + int64(sc.ID))), kind: map[int]string{}}
 	search.VerifAtHook = rec.hook
 	search.VerifTerminalHook = nil
